@@ -408,14 +408,27 @@ func propCases(prop string, g *Gen, n int) []*Case {
 			add(&Case{R: g.Tree(1 + g.r.intn(6)), Obs: obs, Oracles: []string{"C01"}})
 		}
 	case "C02":
-		g.SilentWrappers = true
 		for i := 0; i < n; i++ {
 			r := g.Tree(1 + g.r.intn(5))
+			knowingOnly := false
+			if i%25 == 7 {
+				// a wrapper that silences its cause (its whole message is the empty string) below
+				// annotation layers, between processes that know the library's types: still the same error
+				// (an empty Error() is not regular text for the text relations; here only identity is asked)
+				r = &R{Op: "uwrap", S: []string{"full", ""}, Kids: []*R{g.Leaf(0)}, Strs: []string{}}
+				for k := g.r.intn(3); k > 0; k-- {
+					r = &R{Op: []string{"hint", "detail", "withstack", "domain"}[g.r.intn(4)], Kids: []*R{r}, S: []string{"error domain: \"d\""}}
+				}
+				knowingOnly = true
+			}
 			refs := g.identityRefs(r, 3)
 			// the whole error rebuilt, and references of the same text but another type next to the right one
 			refs = append(refs, &Ref{Kind: "recipe", R: cloneR(r)})
 			refs, anyObs := twinRefs(refs, 3)
 			hops := [][][]string{knowing1, g.hopSeq(1+g.r.intn(2), true), g.hopSeq(1+g.r.intn(2), false)}
+			if knowingOnly {
+				hops = [][][]string{knowing1, knowing2}
+			}
 			obs := append(isObs(len(refs)), anyObs...)
 			for _, h := range hops {
 				obs = append(obs, Obs{Name: "hop", Procs: h, Sub: append(isObs(len(refs)), anyObs...)})
